@@ -5,6 +5,7 @@ package c07
 import (
 	"bytes"
 	"crypto"
+	cryptorand "crypto/rand"
 	stded "crypto/ed25519"
 	"crypto/sha512"
 	"fmt"
@@ -24,7 +25,7 @@ func init() {
 		Builds:   []string{"default", "386"}, // the 386 build runs 1/4 of the random classes on a 32-bit target
 		Scale386: 4,
 		Parallel: 4, // cases are judged on 4 goroutines per shard: the library functions are stateless, shared state inside them shows up as wrong verdicts
-		Rule: "(seed, message) pairs: seeds random / all-zero / all-0xff / single-bit; messages of every length 0..2400 (both SHA-512 padding regimes of prefix||M and R||A||M, and beyond any plausible fixed-size buffer), lengths around 2^10..2^17, and random 1..64 KiB. For each pair the monitor compares NewKeyFromSeed, Public, Seed, Sign (twice), PrivateKey.Sign(Hash(0)), GenerateKey(reader) byte for byte with crypto/ed25519 and with the big-integer RFC 8032 signer, checks Verify accepts, pre-hashed options are refused and short readers fail. The seed and message are passed as windows into larger buffers (pattern behind the length must survive; the buffers are wiped afterwards and every result handed out must stay what it was), and unrelated Verify calls that are rejected at every stage (undecodable R, undecodable key, S>=L, wrong length) or accepted are interleaved on the same goroutine between the calls. " +
+		Rule: "(seed, message) pairs: seeds random / all-zero / all-0xff / single-bit; messages of every length 0..2400 (both SHA-512 padding regimes of prefix||M and R||A||M, and beyond any plausible fixed-size buffer), lengths around 2^10..2^17, and random 1..64 KiB. For each pair the monitor compares NewKeyFromSeed, Public, Seed, Sign (twice), PrivateKey.Sign(Hash(0)), GenerateKey(reader) byte for byte with crypto/ed25519 and with the big-integer RFC 8032 signer, checks Verify accepts, pre-hashed options are refused and short readers fail; GenerateKey(nil) is called with crypto/rand.Reader replaced (under a lock) by a source delivering known bytes, or failing early, and must behave like crypto/ed25519.GenerateKey(nil). The seed and message are passed as windows into larger buffers (pattern behind the length must survive; the buffers are wiped afterwards and every result handed out must stay what it was), and unrelated Verify calls that are rejected at every stage (undecodable R, undecodable key, S>=L, wrong length) or accepted are interleaved on the same goroutine between the calls. " +
 			"Non-trivial: distinct (seed, len(msg)) pairs (all cases).",
 		Assumptions: []string{"crypto/ed25519 and SHA-512 of the Go standard library", "the RFC 8032 model in harness/oracle/ed (self-tested against RFC 8032 vectors)"},
 		SelfTest:    ed.SelfTest,
@@ -43,11 +44,14 @@ func init() {
 			}
 			return m
 		},
-		Required: []string{"unrelated Verify calls interleaved (rejected at every stage, and accepted)", "sign ok", "model signer compared", "short reader refused", "prehash refused"},
+		Required: []string{"GenerateKey(nil) used the crypto/rand.Reader in force at the call", "unrelated Verify calls interleaved (rejected at every stage, and accepted)", "sign ok", "model signer compared", "short reader refused", "prehash refused"},
 	})
 }
 
 var kept fw.Keeper
+
+// randMu serialises the cases that replace the process-wide crypto/rand.Reader (no other case reads it).
+var randMu sync.Mutex
 
 type hashOpt crypto.Hash
 
@@ -57,6 +61,40 @@ func judge(class string, key []byte, o *fw.Obs) {
 	p := fw.Unpack(key)
 	o.Nontrivial()
 	switch class {
+	case "nil_reader":
+		// GenerateKey(nil) reads crypto/rand.Reader, as crypto/ed25519 does: the source in force AT THE CALL
+		// (a test harness, an HSM or DRBG installed after start-up), and its errors, must be honoured.
+		randMu.Lock()
+		defer randMu.Unlock()
+		saved := cryptorand.Reader
+		defer func() { cryptorand.Reader = saved }()
+		seed := p[0]
+		var pub ed25519.PublicKey
+		var priv ed25519.PrivateKey
+		var err error
+		if len(seed) == 32 {
+			cryptorand.Reader = bytes.NewReader(append(append([]byte(nil), seed...), 9, 9, 9))
+			if !o.Try("GenerateKey(nil)", func() { pub, priv, err = ed25519.GenerateKey(nil) }) {
+				return
+			}
+			want := stded.NewKeyFromSeed(seed)
+			if err != nil || !bytes.Equal(priv, want) || !bytes.Equal(pub, want[32:]) {
+				o.Fail("genkey", "GenerateKey(nil) with crypto/rand.Reader replaced by a source delivering %x returned %x / %x err=%v; the key of those 32 bytes is %x", seed, []byte(pub), []byte(priv), err, []byte(want))
+				return
+			}
+			o.Count("GenerateKey(nil) used the crypto/rand.Reader in force at the call")
+			return
+		}
+		cryptorand.Reader = bytes.NewReader(seed) // fewer than 32 bytes: the source fails
+		if !o.Try("GenerateKey(nil)", func() { pub, priv, err = ed25519.GenerateKey(nil) }) {
+			return
+		}
+		if err == nil || pub != nil || priv != nil {
+			o.Fail("genkey", "GenerateKey(nil) with a crypto/rand.Reader that fails after %d bytes returned err=%v pub=%x priv=%x", len(seed), err, []byte(pub), []byte(priv))
+			return
+		}
+		o.Count("short reader refused")
+		return
 	case "short_reader":
 		var pub ed25519.PublicKey
 		var priv ed25519.PrivateKey
@@ -342,6 +380,13 @@ func gen(g *fw.Gen) {
 	for l := 0; l < 32; l++ {
 		if g.Own(l) {
 			g.Emit("short_reader", fw.Pack(g.Bytes(l)))
+		}
+	}
+	for n := g.ShareOf(64, 3200); n > 0; n-- {
+		if n%8 == 0 {
+			g.Emit("nil_reader", fw.Pack(g.Bytes(g.Rng.Intn(32))))
+		} else {
+			g.Emit("nil_reader", fw.Pack(g.Bytes(32)))
 		}
 	}
 }
